@@ -11,7 +11,7 @@
 From Coq Require Import ZArith List Bool Arith Sorted Lia FinFun.
 Require Import DS.Model.CommitBase DS.Gen.GenCommit DS.Model.Commit DS.Proofs.CommitGenProofs DS.Proofs.CommitProofs.
 Require Import DS.Model.CommitMeta DS.Model.CommitLate DS.Proofs.C01Statements.
-Require Import DS.Model.ProcLockBase DS.Gen.GenFileLock DS.Model.ProcLock.
+Require Import DS.Model.ProcLockBase DS.Gen.GenFileLock DS.Model.ProcLock DS.Model.ProcLockKeep.
 Require DS.Proofs.ProcLockProofs.
 Require DS.Model.Meta DS.Model.MetaSpec.
 Import ListNotations.
@@ -152,13 +152,19 @@ Print Assumptions C01_conflict_retried.
 (* ---- "storage with real mutual exclusion", local filesystem: the layer below `lockkind = Excl`.
    Writers are FileLock handles (one per Table handle) placed in OS processes by an ARBITRARY topology
    `proc : hid -> pid` -- threads of one process with separate handles, one process per handle, several handles in
-   one process next to handles in other processes.  Each handle runs FileLock's program on the lock file one kernel
+   one process next to handles in other processes, and processes created by FORK: `LFork h h'` makes handle h' (in
+   another process) the twin of h, copying the handle object and INHERITING its open descriptors (two handles sharing
+   one open file description; Model/ProcLock.v).  Each handle runs FileLock's program on the lock file one kernel
    primitive per event (open; non-blocking attempt; close after a refusal; unlock; close), processes can be killed,
    and EVERY event list is a schedule.  The kernel's ownership discipline is `gen_lock_disc`, read off the primitive
-   the source calls on every run (Gen/GenFileLock.v; flock = the lock belongs to the open file description). *)
+   the source calls on every run (Gen/GenFileLock.v; flock = the lock belongs to the open file description).
+   Hypothesis on the environment, spelled out: `forks_quiescent` -- every fork of the event list copies a handle that
+   is idle at that moment (the application forks its workers between commits, not from inside one; why this cannot be
+   dropped: C01_fork_while_holding_not_exclusive below -- that is fork(2), not FileLock). *)
 
-(* At most one handle believes it holds the lock -- whatever the topology. *)
+(* At most one handle believes it holds the lock -- whatever the topology, forked workers included. *)
 Theorem C01_lock_exclusive_any_topology : forall (proc : hid -> pid) evs h1 h2,
+  forks_quiescent gen_lock_disc proc linit evs ->
   let s := lrun gen_lock_disc proc linit evs in lholds s h1 -> lholds s h2 -> h1 = h2.
 Proof. exact ProcLockProofs.gen_lock_exclusive. Qed.
 Print Assumptions C01_lock_exclusive_any_topology.
@@ -167,22 +173,38 @@ Print Assumptions C01_lock_exclusive_any_topology.
    (so the fence of the commit point, which reads the flag, tells the truth), and every enabled event moves that
    view the way `step` moves `w_lock`: a granted attempt only from a free lock, a refused one only while another
    handle holds, the holder's unlock frees it, a process death frees it iff the holder lived there, and nothing else
-   -- no open, no close of a refused or released descriptor, in the holder's process or any other -- touches it. *)
+   -- no open, no close of a refused or released descriptor, in the holder's process or any other, no fork of an idle
+   handle -- touches it. *)
 Theorem C01_lock_refines_excl : forall (proc : hid -> pid) evs,
+  forks_quiescent gen_lock_disc proc linit evs ->
   let s := lrun gen_lock_disc proc linit evs in
   (forall h, lholds s h <-> lock_view s = Some h)
-  /\ (forall e s', lstep gen_lock_disc proc s e = Some s' -> view_effect proc s e s').
+  /\ (forall e s', fork_quiescent s e -> lstep gen_lock_disc proc s e = Some s' -> view_effect proc s e s').
 Proof. exact ProcLockProofs.gen_lock_refinement. Qed.
 Print Assumptions C01_lock_refines_excl.
 
 (* A holder cannot lose the lock to anything but its own unlock or the death of its own process: what the other
-   handles do -- those sharing its process included -- leaves its flag set AND its description the kernel's owner. *)
+   handles do -- those sharing its process and its forked twins included -- leaves its flag set AND its description
+   the kernel's owner. *)
 Theorem C01_lock_not_dropped_by_others : forall (proc : hid -> pid) evs e s' h,
+  forks_quiescent gen_lock_disc proc linit evs ->
   let s := lrun gen_lock_disc proc linit evs in
-  lstep gen_lock_disc proc s e = Some s' -> lholds s h -> e <> LStep h KUnlock -> e <> LKill (proc h) ->
+  fork_quiescent s e -> lstep gen_lock_disc proc s e = Some s' -> lholds s h -> e <> LStep h KUnlock -> e <> LKill (proc h) ->
   lholds s' h /\ lock_view s' = Some h.
 Proof. exact ProcLockProofs.gen_lock_keeps_holder. Qed.
 Print Assumptions C01_lock_not_dropped_by_others.
+
+(* WHY a forked worker is just another writer: the regenerated program opens the lock file per attempt and closes it on
+   refusal and in release(), so an idle handle holds NO descriptor of the lock file; a worker forked while its parent's
+   handle is idle inherits nothing -- the fork changes no descriptor table, no owner, no handle state. *)
+Theorem C01_fork_inherits_nothing : forall (proc : hid -> pid) evs,
+  forks_quiescent gen_lock_disc proc linit evs ->
+  let s := lrun gen_lock_disc proc linit evs in
+  (forall h d, l_h s h = HIdle -> ~ In (d, h) (l_open s))
+  /\ (forall h h' s', l_h s h = HIdle -> lstep gen_lock_disc proc s (LFork h h') = Some s' ->
+        l_open s' = l_open s /\ l_next s' = l_next s /\ l_owner s' = l_owner s /\ forall k, l_h s' k = l_h s k).
+Proof. exact ProcLockProofs.gen_lock_fork_inherits_nothing. Qed.
+Print Assumptions C01_fork_inherits_nothing.
 
 (* The handle program of the model is, primitive for primitive, the skeleton the translator regenerates from
    FileLock._try_acquire_once / FileLock.release; the discipline is the description-owned one; the fence is the
@@ -192,12 +214,31 @@ Theorem C01_lock_skeleton_regenerated :
   /\ flat_map lactions_of attempt_granted_events = gen_attempt_granted
   /\ flat_map lactions_of attempt_refused_events = gen_attempt_refused
   /\ flat_map lactions_of release_events = gen_release
-  /\ (forall (proc : hid -> pid) evs h, let s := lrun gen_lock_disc proc linit evs in
+  /\ (forall (proc : hid -> pid) evs h, forks_quiescent gen_lock_disc proc linit evs ->
+        let s := lrun gen_lock_disc proc linit evs in
         l_h s h = HIdle -> lock_view s = None ->
         exists s', lrun_strict gen_lock_disc proc s (map (LStep h) attempt_granted_events) 0 = inl s'
                    /\ lholds s' h /\ lock_view s' = Some h).
 Proof. exact ProcLockProofs.gen_lock_skeleton. Qed.
 Print Assumptions C01_lock_skeleton_regenerated.
+
+(* Non-vacuity of the fork hypotheses: a parent (handle 0, process 0) uses its lock once, then forks two workers
+   (handles 1, 2 in processes 1, 2); worker 1 takes the lock, the parent and worker 2 are refused, worker 1 releases,
+   the parent takes it.  Every fork is quiescent, the strict run accepts every event, exactly handle 0 holds. *)
+Definition own_proc (h : hid) : pid := h.
+Definition ex_fork_sched : list levent :=
+  [LStep 0 KOpen; LStep 0 (KTry true); LStep 0 KUnlock; LStep 0 KClose; LFork 0 1; LFork 0 2;
+   LStep 1 KOpen; LStep 1 (KTry true); LStep 0 KOpen; LStep 0 (KTry false); LStep 0 KCloseRefused;
+   LStep 2 KOpen; LStep 2 (KTry false); LStep 2 KCloseRefused; LStep 1 KUnlock; LStep 1 KClose;
+   LStep 0 KOpen; LStep 0 (KTry true)]%nat.
+Example C01_fork_nonvacuous :
+  forks_quiescent gen_lock_disc own_proc linit ex_fork_sched
+  /\ (exists s, lrun_strict gen_lock_disc own_proc linit ex_fork_sched 0 = inl s
+                 /\ s = lrun gen_lock_disc own_proc linit ex_fork_sched /\ lock_view s = Some 0%nat /\ lholds s 0%nat).
+Proof.
+  split; [vm_compute; repeat split|]. eexists. split; [vm_compute; reflexivity|]. split; [vm_compute; reflexivity|].
+  split; [vm_compute; reflexivity|]. eexists. vm_compute. reflexivity.
+Qed.
 
 (* Why the discipline and the topology matter (refutation witnesses; the harness replays their shape on the real
    code: X holds, Y in X's process touches the lock file, Z in another process attempts).  With PROCESS-owned locks
@@ -231,6 +272,47 @@ Example C01_description_owned_lock_refuses_them :
 Proof.
   split; [vm_compute; reflexivity|]. eexists. split; [vm_compute; reflexivity|]. split; [vm_compute; reflexivity|].
   eexists. vm_compute. reflexivity.
+Qed.
+
+(* Why the fork hypothesis cannot be dropped (fork(2), whatever the library does): a fork while the copied handle HOLDS
+   gives the worker a twin whose flag says "held" and whose descriptor shares the parent's description -- two handles
+   believe they hold; and the twin's release() unlocks the SHARED description: the parent's lock is gone while the
+   parent still believes it holds, and an independent third handle is granted. *)
+Example C01_fork_while_holding_not_exclusive :
+  (exists s, lrun_strict gen_lock_disc own_proc linit [LStep 0 KOpen; LStep 0 (KTry true); LFork 0 1]%nat 0 = inl s
+             /\ lholds s 0%nat /\ lholds s 1%nat)
+  /\ (exists s, lrun_strict gen_lock_disc own_proc linit
+               [LStep 0 KOpen; LStep 0 (KTry true); LFork 0 1; LStep 1 KUnlock; LStep 1 KClose;
+                LStep 2 KOpen; LStep 2 (KTry true)]%nat 0 = inl s
+             /\ lholds s 0%nat /\ lholds s 2%nat)
+  /\ ~ forks_quiescent gen_lock_disc own_proc linit [LStep 0 KOpen; LStep 0 (KTry true); LFork 0 1]%nat.
+Proof.
+  split; [|split].
+  - eexists. split; [vm_compute; reflexivity|]. split; eexists; vm_compute; reflexivity.
+  - eexists. split; [vm_compute; reflexivity|]. split; eexists; vm_compute; reflexivity.
+  - vm_compute. intros [_ [_ [H _]]]. discriminate.
+Qed.
+
+(* Why the per-attempt open / close of the regenerated program matters (Model/ProcLockKeep.v: the same kernel, a handle
+   that KEEPS its descriptor across acquisitions): the parent uses its lock once, a worker is forked while the parent's
+   handle is idle -- and inherits the kept descriptor --; then the parent takes the lock and the worker's attempt through
+   the shared description is GRANTED as well (both hold, in two processes); the worker's unlock drops the parent's lock
+   and an independent third handle is granted while the parent still believes it holds. *)
+Example C01_kept_descriptor_not_exclusive_after_fork :
+  (exists s, krun_strict gen_lock_disc own_proc linit
+               [KEv (LStep 0 KOpen); KEv (LStep 0 (KTry true)); KUnlockKeep 0; KForkKeep 0 1;
+                KEv (LStep 0 (KTry true)); KEv (LStep 1 (KTry true))]%nat 0 = inl s
+             /\ lholds s 0%nat /\ lholds s 1%nat /\ own_proc 0%nat <> own_proc 1%nat)
+  /\ (exists s, krun_strict gen_lock_disc own_proc linit
+               [KEv (LStep 0 KOpen); KEv (LStep 0 (KTry true)); KUnlockKeep 0; KForkKeep 0 1;
+                KEv (LStep 0 (KTry true)); KEv (LStep 1 (KTry true)); KUnlockKeep 1;
+                KEv (LStep 2 KOpen); KEv (LStep 2 (KTry true))]%nat 0 = inl s
+             /\ lholds s 0%nat /\ lholds s 2%nat).
+Proof.
+  split.
+  - eexists. split; [vm_compute; reflexivity|]. split; [eexists; vm_compute; reflexivity|].
+    split; [eexists; vm_compute; reflexivity | vm_compute; discriminate].
+  - eexists. split; [vm_compute; reflexivity|]. split; eexists; vm_compute; reflexivity.
 Qed.
 
 (* Non-vacuity: a concrete schedule on the exclusive-lock configuration with a FROZEN clock in which
